@@ -100,7 +100,7 @@ fn gen_policy(ctx: &mut Ctx, db: &mut Db, focus: Focus, name: String) -> Running
     //        5 no annotation, 6 unrelated comment, 7 inactive, 8 empty result
     let weights: [usize; 9] = match focus {
         Focus::C01 | Focus::C02 => [12, 1, 0, 0, 0, 2, 1, 1, 2],
-        Focus::C03 => [6, 4, 4, 4, 0, 1, 1, 1, 1],
+        Focus::C03 => [6, 4, 4, 4, 2, 1, 1, 1, 1],
         Focus::C04 => [10, 0, 0, 0, 0, 1, 0, 0, 1],
         Focus::C15 => [8, 2, 2, 0, 5, 1, 0, 0, 1],
     };
@@ -167,6 +167,20 @@ pub fn gen_world(ctx: &mut Ctx, focus: Focus) -> World {
         let name = fresh_name(ctx, &policies, special);
         let p = gen_policy(ctx, &mut db, focus, name);
         policies.push(p);
+    }
+    if focus == Focus::C15 && ctx.chance(1, 8) {
+        // an IRR mirror without IPv6 data (every !6 query is answered with an error, which the
+        // client sinks) and one policy over a large as-set: dozens of sunk errors in one evaluation
+        // must not change how the other policies fare
+        db.fail_all_v6 = true;
+        let members: Vec<String> = (0..70 + ctx.pick(30)).map(|i| format!("AS{}", 65_100 + i)).collect();
+        for (i, m) in members.iter().enumerate() {
+            db.routes.insert(m.clone(), (vec![format!("10.{}.{}.0/24", 100 + i / 250, i % 250)], vec![format!("2001:db8:{:x}::/48", 0x4000 + i)]));
+        }
+        db.as_sets.insert("AS-BIG".into(), members);
+        let name = fresh_name(ctx, &policies, false);
+        policies.push(RunningPolicy { name, comment: Some("bgpfu-fltr: AS-BIG".into()), decorate: 0, active: None, body: Body::DefaultReject, attr_variant: 0 });
+        ctx.count("probe.large_as_set_on_a_mirror_without_ipv6_data");
     }
     let instance = (*ctx.tape.choose(&["bgpfu", "bgpfu", "irr-filters", "eph_1"])).to_string();
     World { db, policies, instance }
@@ -346,8 +360,23 @@ pub fn agent_run(ctx: &mut Ctx, hist: &History, w: &World, junos: Junos, irr_ref
     junos.running = w.policies.clone();
     let instance = w.instance.clone();
     let delays = vec![0, 0, 0, 1, 3, 20, 200];
+    // half of the runs: the first poll of every task the agent spawns is delayed by a seeded 0-3 ms of
+    // virtual time, so that the order in which its tasks reach the session's locks varies (as it does
+    // on a multi-threaded runtime)
+    let chaos = (ctx.pick(2) == 1).then(|| 1 + ctx.pick(1 << 30) as u64);
+    if chaos.is_some() {
+        ctx.count("sched.spawned_tasks_start_in_seeded_order");
+    }
     let (result, junos) = with_shared(ctx, junos, delays, |sh| {
         let conn = connector(sh.clone());
+        shim::chaos::set(chaos);
+        struct ChaosOff;
+        impl Drop for ChaosOff {
+            fn drop(&mut self) {
+                shim::chaos::set(None);
+            }
+        }
+        let _off = ChaosOff;
         // a panic of the agent outside its spawned tasks ends the process: for the oracles that is a
         // run that failed without a clean error ("the agent panicked: ...")
         let r = match std::panic::catch_unwind(std::panic::AssertUnwindSafe(|| hist.rt.block_on(async move { agent::verif::run_once(conn, "irrd.sim", 43, &instance).await }))) {
@@ -608,6 +637,27 @@ pub fn oracle_c02(w: &World, obs: &RunObs) -> Result<(), (String, String)> {
             }
         }
     }
+    // what this run COMMITTED: every policy it sent a load for (acknowledged or not - a router merges
+    // what it can of a refused payload) must be closed in the committed configuration
+    let committed_now = obs.sessions.iter().flatten().any(|r| r.op == "commit-configuration" && r.applied);
+    if committed_now {
+        let touched: BTreeSet<&String> = obs.sessions.iter().flatten().filter(|r| r.op == "load-configuration").filter_map(|r| r.policy.as_ref()).filter(|(_, del)| !*del).map(|(n, _)| n).collect();
+        for (name, p) in obs.after.iter().filter(|(n, _)| touched.contains(n)) {
+            let sets = match accept_sets(p) {
+                Ok(s) => s,
+                Err(why) => return Err(("fail-open-term/committed".into(), format!("the committed policy {name:?}: {why}"))),
+            };
+            if p.then != ["reject"] {
+                return Err(("no-final-reject/committed".into(), format!("the committed policy {name:?} ends with {:?}", p.then)));
+            }
+            if let Some(Expect::Target(v4, v6)) = exp.get(name) {
+                let extra: Vec<_> = sets.0.difference(v4).chain(sets.1.difference(v6)).take(4).collect();
+                if !extra.is_empty() {
+                    return Err(("accepts-outside-evaluated-set/committed".into(), format!("the committed policy {name:?} accepts {extra:?}, which are not in the evaluated set")));
+                }
+            }
+        }
+    }
     Ok(())
 }
 
@@ -640,9 +690,6 @@ pub fn oracle_c03_all(w: &World, obs: &RunObs) -> Vec<(String, String)> {
     };
     for p in w.policies.iter().filter(|p| marked(p)) {
         let Some(cause) = cause_of(&p.name) else { continue };
-        if cause == "unevaluable-construct" {
-            continue; // C15's domain
-        }
         let mut named = false;
         for r in obs.sessions.iter().flatten() {
             if let Some((name, is_delete)) = &r.policy {
@@ -784,7 +831,8 @@ pub fn oracle_c15(w: &World, obs: &RunObs) -> Result<(), (String, String)> {
 // scenario
 // ---------------------------------------------------------------------------------------------
 
-const FAULTS: [FaultKind; 13] = [
+const FAULTS: [FaultKind; 14] = [
+    FaultKind::LoadPartial,
     FaultKind::EmptyBody,
     FaultKind::RpcError,
     FaultKind::LoadErrorInResults,
@@ -1138,7 +1186,7 @@ const COMPONENTS: &[(&str, &str)] = &[
     ("junos-agent task.rs (Updater::run), netconf/mod.rs (client typestate), policies/{fetch,eval,compare,load}.rs", "real"),
     ("netconf session layer, messages, builders, readers", "real"),
     ("bgpfu-lib query.rs, rpsl, irrc pipeline + parser", "real"),
-    ("tokio runtime, timers", "real (current_thread, paused clock, seeded)"),
+    ("tokio runtime, timers", "real (current_thread, paused clock, seeded); in half of the runs tokio::spawn as seen by the agent delays the first poll of the new task by a seeded 0-3 virtual ms (shim/tokio)"),
     ("netconf transport", "stub: in-memory with seeded virtual delays per send and per reply"),
     ("irrc TCP socket", "stub: in-memory, synchronous, seeded short reads"),
     ("tokio::task::block_in_place", "stub: direct call (tokio shim)"),
@@ -1193,10 +1241,10 @@ macro_rules! agent_spec {
 agent_spec!(C01, "C01", run_c01, "exploration", 20_000, 500_000, PLAN_CASES_PER_POLICY * PLAN_CASES_PER_POLICY,
     "enumerated (8100 cases): for two policies at once (one with XML metacharacters in its name), every pair of {absent, installed with any subset of a 2+1 range universe} x {not a candidate, evaluation failed, evaluated to any subset} through the real reader -> compare -> update writer, applied to the router model: convergence, no stale policy, untouched on failure, read-back, idempotence. seeded: a history of 1-4 (thorough: 1-6) consecutive real agent runs against one FakeJunos + FakeIrrd, starting from an empty ephemeral instance; between runs the world mutates (routes appear/disappear, a family of an AS vanishes, set membership changes, policies lose the annotation / are deactivated / removed / renamed / get a new expression / are added); policy names occasionally contain XML metacharacters, quotes and non-ASCII; seeded virtual delays on every send and reply, seeded hash order, seeded IRR read segmentation; one run in four meets a NETCONF fault at a seeded request position (it may fail, but if it reports success it must have converged); one fault-free run in 60 is made end to end by the agent executable (child process in one-shot mode with the options a user would give: --ephemeral-db, --irrd-host/port, remote --netconf-host/port, certificate paths, --tls-server-name) against FakeJunos behind a real TLS listener and FakeIrrd on a loopback TCP socket - its exit status is the run's result. After every successful run: committed accept-set per family == reference set, final reject, no stale policy, read-back through the agent's own reader; finally one more run with unchanged inputs must succeed and change nothing. Non-trivial = at least one load-configuration was sent; distinct = distinct event-log hash", COMPONENTS_C01);
 agent_spec!(C02, "C02", run_c02, "exploration", 20_000, 1_000_000, PLAN_CASES_PER_POLICY * PLAN_CASES_PER_POLICY,
-    "enumerated: the 8100 (installed, evaluated) cases of C01, each planned update applied on its own to the fetched state. seeded: the C01 histories, one run in three with a NETCONF fault injected at a seeded request position (so that runs abort after any prefix of the update sequence); the oracle is evaluated on the model's working copy after every single load-configuration: every accepting term is restricted to inet or inet6, has at least one route-filter, all its route-filters belong to the reference set of that family, the policy ends in reject; element paths of every payload stay below configuration/policy-options/policy-statement; only the six expected operations are used and exactly the configured ephemeral instance is opened");
+    "enumerated: the 8100 (installed, evaluated) cases of C01, each planned update applied on its own to the fetched state. seeded: the C01 histories, one run in three with a NETCONF fault injected at a seeded request position (so that runs abort after any prefix of the update sequence); the oracle is evaluated on the model's working copy after every single load-configuration: every accepting term is restricted to inet or inet6, has at least one route-filter, all its route-filters belong to the reference set of that family, the policy ends in reject; element paths of every payload stay below configuration/policy-options/policy-statement; only the six expected operations are used and exactly the configured ephemeral instance is opened; whatever a run commits must be closed for every policy it sent a load for, also when the router had refused a load and merged part of it");
 agent_spec!(C03, "C03", run_c03, "fault_enumeration", 20_000, 1_000_000, 0,
-    "histories biased towards managed policies whose data is unobtainable: unknown as-set, error response (F / E / D) to the as-set members query, IRRd refusing the connection, annotations with the bgpfu-fltr prefix that do not parse; installed state present or absent, mutations make annotations unparseable between runs. Oracle: no update or delete names such a policy and its installed state is unchanged; deletes name only policies that are not marked as managed");
+    "histories biased towards managed policies whose data is unobtainable: unknown as-set, error response (F / E / D) to the as-set members query, IRRd refusing the connection, annotations with the bgpfu-fltr prefix that do not parse, expressions using constructs the evaluator does not support (PeerAS, AS-path regular expressions, attribute matches); installed state present or absent, mutations make annotations unparseable between runs. Oracle: no update or delete names such a policy and its installed state is unchanged; deletes name only policies that are not marked as managed");
 agent_spec!(C04, "C04", run_c04, "fault_enumeration", 20_000, 1_000_000, 0,
-    "1-2 runs per history with 1-2 faults at seeded positions of the request sequence open -> get-config x2 -> load x N -> commit -> close-configuration -> close-session; fault kinds: rpc-error, error inside load-configuration-results, error followed by <ok/>, the positive indication followed by an error, a reply without any content (no acknowledgement), malformed reply, truncated reply, unknown message-id, another outstanding request's message-id, duplicated reply, close before the reply, close after the reply, and (non-fault) warning followed by <ok/>; reply delays let a failing load reply arrive after later loads were sent. Oracle on the per-session request log: commit only after open and every load were positively acknowledged and delivered, never after a failed step; fault => run fails; success => commit, close-configuration and close-session acknowledged");
+    "1-2 runs per history with 1-2 faults at seeded positions of the request sequence open -> get-config x2 -> load x N -> commit -> close-configuration -> close-session; fault kinds: rpc-error, error inside load-configuration-results, error followed by <ok/>, the positive indication followed by an error, a reply without any content (no acknowledgement), a load that is refused but partially merged by the router, malformed reply, truncated reply, unknown message-id, another outstanding request's message-id, duplicated reply, close before the reply, close after the reply, and (non-fault) warning followed by <ok/>; reply delays let a failing load reply arrive after later loads were sent. Oracle on the per-session request log: commit only after open and every load were positively acknowledged and delivered, never after a failed step; fault => run fails; success => commit, close-configuration and close-session acknowledged");
 agent_spec!(C15, "C15", run_c15, "exploration", 20_000, 1_000_000, 0,
-    "1-5 (thorough: 1-10) managed policies of which some are unevaluable: unknown as-set, IRR error response, PeerAS, AS-path regular expression, community match; all hash orders; one run in 60 is made end to end by the agent executable (its own main(), i.e. with whatever process-wide hooks it installs). Oracle: the run succeeds, every evaluable policy reaches its reference set and is committed, the unevaluable ones are untouched. The violation class names the kind of unevaluable member present", COMPONENTS_C01);
+    "1-5 (thorough: 1-10) managed policies of which some are unevaluable (one world in eight additionally has a policy over a 70-100 member as-set on an IRR mirror that answers every route6 query with an error, i.e. dozens of sunk errors within one evaluation): unknown as-set, IRR error response, PeerAS, AS-path regular expression, community match; all hash orders; one run in 60 is made end to end by the agent executable (its own main(), i.e. with whatever process-wide hooks it installs). Oracle: the run succeeds, every evaluable policy reaches its reference set and is committed, the unevaluable ones are untouched. The violation class names the kind of unevaluable member present", COMPONENTS_C01);
